@@ -33,6 +33,9 @@ func zzC07Claim(m MapClaims, name string, repr int, v int64) {
 		m[name] = float64(v)
 	case 2:
 		m[name] = json.Number(strconv.FormatInt(v, 10))
+	case 3:
+		// a NumericDate with a fractional part (RFC 7519 allows it): v + 0.5
+		m[name] = float64(v) + 0.5
 	}
 }
 
@@ -51,9 +54,10 @@ func zzC07Flags(err error) (uint32, bool) {
 func ZZ_C07_mapclaims() {
 	w := zzC07Window()
 	nowS := time.Now().Unix()
-	repr := zz.Choice("repr", 3)
+	repr := zz.Choice("repr", 4)
 	m := MapClaims{"sub": "peter"}
 	hasExp, hasNbf, hasIat := zz.Bool("has.exp"), zz.Bool("has.nbf"), zz.Bool("has.iat")
+	zz.Cover("repr:fractional-float", repr == 3)
 	var dExp, dNbf, dIat int64
 	if hasExp {
 		dExp = zz.Int("exp", -w, w)
